@@ -42,6 +42,31 @@ pub enum Close {
     DropWriteHalf,
 }
 
+/// When an endpoint writes relative to its reading.
+#[derive(Clone, Copy, Debug, Default, Serialize, Deserialize, PartialEq, Eq)]
+pub enum Reply {
+    /// split modes: reader and writer run concurrently; WholeSeq: all writes + shutdown, then reads
+    #[default]
+    Concurrent,
+    /// request/response: the endpoint first reads (to EOF, or to its `reader_quits_after` count
+    /// without ever reading the EOF), waits `linger_ms`, only then writes its chunks (the reply),
+    /// closes per `close` and drops the stream / both halves (order: `half_drop`)
+    AfterRead,
+}
+
+/// Order in which a replying endpoint (Reply::AfterRead) lets go of its two halves.
+#[derive(Clone, Copy, Debug, Default, Serialize, Deserialize, PartialEq, Eq)]
+pub enum HalfDrop {
+    /// after the reply: read half, then write half (WholeSeq: the whole stream at once)
+    #[default]
+    ReadThenWrite,
+    /// after the reply: write half, then read half
+    WriteThenRead,
+    /// into_split only: the read half is dropped as soon as the reader is done, BEFORE the reply
+    /// is written through the surviving write half (other modes: as ReadThenWrite)
+    ReadBeforeReply,
+}
+
 #[derive(Clone, Debug, Serialize, Deserialize)]
 pub struct Side {
     pub mode: Mode,
@@ -56,6 +81,14 @@ pub struct Side {
     pub reader_quits_after: Option<u32>,
     /// ms the reader waits before its first read (slow reader => back-pressure)
     pub reader_delay: u16,
+    #[serde(default)]
+    pub reply: Reply,
+    #[serde(default)]
+    pub half_drop: HalfDrop,
+    /// Reply::AfterRead: ms between the end of reading and the reply (lets the peer's FIN arrive
+    /// and sit unread in the receive queue)
+    #[serde(default)]
+    pub linger_ms: u16,
 }
 
 #[derive(Clone, Copy, Debug, Serialize, Deserialize, PartialEq, Eq)]
@@ -92,6 +125,9 @@ pub struct Scenario {
     /// connection (each has its own byte pattern).
     #[serde(default)]
     pub followups: Vec<Followup>,
+    /// assert every clause even where a finding that is still "known" would be tolerated
+    #[serde(default)]
+    pub strict: bool,
 }
 
 #[derive(Clone, Debug, Serialize, Deserialize)]
@@ -102,6 +138,24 @@ pub struct Followup {
 }
 
 pub const MAX_FOLLOWUPS: usize = 3;
+
+/// signature of finding F-C02-2
+pub const LATE_FIN_SIG: &str = "reset-after-drop-with-nothing-unread-before-peer-fin-arrived";
+
+/// A finding is tolerated only while /verif/known_findings.json lists it with status "known".
+pub fn is_known(id: &str) -> bool {
+    static KNOWN: std::sync::OnceLock<Vec<String>> = std::sync::OnceLock::new();
+    KNOWN
+        .get_or_init(|| {
+            crate::engine::load_findings()
+                .into_iter()
+                .filter(|f| f.property == "C02" && f.status == "known")
+                .map(|f| f.id)
+                .collect()
+        })
+        .iter()
+        .any(|k| k == id)
+}
 
 /// `dir` = direction (0 client->server, 1 server->client) + 2 * connection index;
 /// the patterns of two different (connection, direction) streams differ in every byte
@@ -124,6 +178,14 @@ struct Dir {
     writer_done: bool,
     reader_quit: bool,
     segments: u64,
+    /// the reader quit (stopped before EOF) at a moment when the writer of this direction had
+    /// already closed its write side and every accepted byte had been consumed: nothing is unread
+    /// at the quitter and nothing can arrive any more except the FIN => its drop is graceful
+    quit_graceful: bool,
+    /// simulated time at which the writer of this direction closed (FIN emitted)
+    closed_at: Option<Duration>,
+    /// simulated time at which the quitting reader of this direction dropped its read side
+    read_dropped_at: Option<Duration>,
 }
 
 #[derive(Default)]
@@ -152,6 +214,27 @@ impl Shared {
     /// byte-pattern selector of direction `d` on this connection
     fn pat(&self, d: usize) -> usize {
         d + 2 * self.conn
+    }
+}
+
+fn now() -> Duration {
+    turmoil::sim_elapsed().unwrap_or_default()
+}
+
+/// the writer of direction `d` has closed its write side (shutdown returned / half about to drop)
+fn mark_closed(sh: &Shared, d: usize) {
+    let mut g = sh.dirs[d].borrow_mut();
+    g.writer_closed = true;
+    if g.closed_at.is_none() {
+        g.closed_at = Some(now());
+    }
+}
+
+/// the reader of direction `d` is about to drop its read side
+fn note_read_drop(sh: &Shared, d: usize) {
+    let mut g = sh.dirs[d].borrow_mut();
+    if g.read_dropped_at.is_none() {
+        g.read_dropped_at = Some(now());
     }
 }
 
@@ -212,9 +295,8 @@ async fn writer<W: AsyncWrite + Unpin>(sh: Rc<Shared>, d: usize, mut w: W, side:
             sh.dirs[d].borrow_mut().writer_error = Some(format!("shutdown {:?}", e.kind()));
         }
     }
-    let mut g = sh.dirs[d].borrow_mut();
-    g.writer_closed = true;
-    g.writer_done = true;
+    mark_closed(&sh, d);
+    sh.dirs[d].borrow_mut().writer_done = true;
     w
 }
 
@@ -251,7 +333,7 @@ async fn reader_loop<R: AsyncRead + Unpin>(
     d: usize,
     r: &mut R,
     side: &Side,
-    mut peek: impl FnMut(&mut R, usize) -> Option<std::pin::Pin<Box<dyn std::future::Future<Output = std::io::Result<Vec<u8>>> + '_>>>,
+    mut peek: impl for<'a> FnMut(&'a mut R, usize) -> Option<std::pin::Pin<Box<dyn std::future::Future<Output = std::io::Result<Vec<u8>>> + 'a>>>,
 ) {
     if side.reader_delay > 0 {
         tokio::time::sleep(Duration::from_millis(side.reader_delay as u64)).await;
@@ -264,7 +346,9 @@ async fn reader_loop<R: AsyncRead + Unpin>(
         pause(p).await;
         if let Some(q) = side.reader_quits_after {
             if sh.dirs[d].borrow().consumed >= q as usize {
-                sh.dirs[d].borrow_mut().reader_quit = true;
+                let mut g = sh.dirs[d].borrow_mut();
+                g.reader_quit = true;
+                g.quit_graceful = g.writer_closed && g.consumed == g.accepted;
                 break;
             }
         }
@@ -348,8 +432,66 @@ async fn reader_loop<R: AsyncRead + Unpin>(
     sh.dirs[d].borrow_mut().reader_done = true;
 }
 
+type PeekFut<'a> = std::pin::Pin<Box<dyn std::future::Future<Output = std::io::Result<Vec<u8>>> + 'a>>;
+
+fn peek_owned(r: &mut turmoil::net::tcp::OwnedReadHalf, sz: usize) -> Option<PeekFut<'_>> {
+    Some(Box::pin(async move {
+        let mut b = vec![0u8; sz];
+        let n = r.peek(&mut b).await?;
+        b.truncate(n);
+        Ok(b)
+    }))
+}
+
+fn peek_whole(r: &mut TcpStream, sz: usize) -> Option<PeekFut<'_>> {
+    Some(Box::pin(async move {
+        let mut b = vec![0u8; sz];
+        let n = r.peek(&mut b).await?;
+        b.truncate(n);
+        Ok(b)
+    }))
+}
+
+/// All writes of `side` on a whole stream through try_write + writable.  Returns false when a
+/// write failed (error recorded).
+async fn whole_write(sh: &Shared, wd: usize, s: &mut TcpStream, side: &Side) -> bool {
+    let mut off = 0usize;
+    for (i, c) in side.chunks.iter().enumerate() {
+        let p = if side.write_pauses.is_empty() { 0 } else { side.write_pauses[i % side.write_pauses.len()] };
+        pause(p).await;
+        let data: Vec<u8> = (0..*c as usize).map(|j| byte(sh.pat(wd), off + j)).collect();
+        let mut rest = &data[..];
+        while !rest.is_empty() {
+            match s.try_write(rest) {
+                Ok(n) => {
+                    let mut g = sh.dirs[wd].borrow_mut();
+                    g.accepted += n;
+                    g.segments += 1;
+                    off += n;
+                    rest = &rest[n.min(rest.len())..];
+                }
+                Err(e) if e.kind() == std::io::ErrorKind::WouldBlock => {
+                    sh.dirs[wd].borrow_mut().would_block += 1;
+                    if let Err(e) = s.writable().await {
+                        sh.dirs[wd].borrow_mut().writer_error = Some(format!("writable {:?}", e.kind()));
+                        return false;
+                    }
+                }
+                Err(e) => {
+                    sh.dirs[wd].borrow_mut().writer_error = Some(format!("{:?}", e.kind()));
+                    return false;
+                }
+            }
+        }
+    }
+    true
+}
+
 /// Run one endpoint: `wd` is the direction it writes, `rd` the one it reads.
 async fn endpoint(sh: Rc<Shared>, stream: TcpStream, side: Side, wd: usize, rd: usize) {
+    if side.reply == Reply::AfterRead {
+        return responder(sh, stream, side, wd, rd).await;
+    }
     match side.mode {
         Mode::IntoSplit => {
             let (mut r, w) = stream.into_split();
@@ -363,17 +505,11 @@ async fn endpoint(sh: Rc<Shared>, stream: TcpStream, side: Side, wd: usize, rd: 
                     Some(w)
                 }
             });
-            reader_loop(sh.clone(), rd, &mut r, &side, |r, sz| {
-                Some(Box::pin(async move {
-                    let mut b = vec![0u8; sz];
-                    let n = r.peek(&mut b).await?;
-                    b.truncate(n);
-                    Ok(b)
-                }))
-            })
-            .await;
+            reader_loop(sh.clone(), rd, &mut r, &side, peek_owned).await;
             if sh.dirs[rd].borrow().reader_quit {
-                // abortive: drop the read half now (unread data => RST)
+                // drop the read half now, while the writer task goes on (abortive => RST if data
+                // is unread; graceful if the peer had closed and everything was consumed)
+                note_read_drop(&sh, rd);
                 drop(r);
                 let _ = wt.await;
             } else {
@@ -388,60 +524,85 @@ async fn endpoint(sh: Rc<Shared>, stream: TcpStream, side: Side, wd: usize, rd: 
             let wt = tokio::task::spawn_local(async move { writer(sh2, wd, w, Side { close: Close::Shutdown, ..side2 }).await });
             reader_loop(sh.clone(), rd, &mut r, &side, |_r, _sz| None).await;
             let w = wt.await;
+            note_read_drop(&sh, rd);
             drop(r);
             drop(w);
         }
         Mode::WholeSeq => {
             let mut s = stream;
-            // writes through try_write + writable
-            let mut off = 0usize;
-            let mut broken = false;
-            'outer: for (i, c) in side.chunks.iter().enumerate() {
-                let p = if side.write_pauses.is_empty() { 0 } else { side.write_pauses[i % side.write_pauses.len()] };
-                pause(p).await;
-                let data: Vec<u8> = (0..*c as usize).map(|j| byte(sh.pat(wd), off + j)).collect();
-                let mut rest = &data[..];
-                while !rest.is_empty() {
-                    match s.try_write(rest) {
-                        Ok(n) => {
-                            let mut g = sh.dirs[wd].borrow_mut();
-                            g.accepted += n;
-                            g.segments += 1;
-                            off += n;
-                            rest = &rest[n.min(rest.len())..];
-                        }
-                        Err(e) if e.kind() == std::io::ErrorKind::WouldBlock => {
-                            sh.dirs[wd].borrow_mut().would_block += 1;
-                            if let Err(e) = s.writable().await {
-                                sh.dirs[wd].borrow_mut().writer_error = Some(format!("writable {:?}", e.kind()));
-                                broken = true;
-                                break 'outer;
-                            }
-                        }
-                        Err(e) => {
-                            sh.dirs[wd].borrow_mut().writer_error = Some(format!("{:?}", e.kind()));
-                            broken = true;
-                            break 'outer;
-                        }
-                    }
-                }
-            }
-            if !broken {
+            if whole_write(&sh, wd, &mut s, &side).await {
                 if let Err(e) = s.shutdown().await {
                     sh.dirs[wd].borrow_mut().writer_error = Some(format!("shutdown {:?}", e.kind()));
                 }
-                sh.dirs[wd].borrow_mut().writer_closed = true;
+                mark_closed(&sh, wd);
             }
             sh.dirs[wd].borrow_mut().writer_done = true;
-            reader_loop(sh.clone(), rd, &mut s, &side, |r, sz| {
-                Some(Box::pin(async move {
-                    let mut b = vec![0u8; sz];
-                    let n = r.peek(&mut b).await?;
-                    b.truncate(n);
-                    Ok(b)
-                }))
-            })
-            .await;
+            reader_loop(sh.clone(), rd, &mut s, &side, peek_whole).await;
+            note_read_drop(&sh, rd);
+            drop(s);
+        }
+    }
+}
+
+/// Reply::AfterRead — request/response: read first (to EOF or to the exact quit count, never
+/// reading the EOF), linger, write the reply, close, drop.
+async fn responder(sh: Rc<Shared>, stream: TcpStream, side: Side, wd: usize, rd: usize) {
+    let linger = Duration::from_millis(side.linger_ms as u64);
+    match side.mode {
+        Mode::IntoSplit => {
+            let (mut r, w) = stream.into_split();
+            reader_loop(sh.clone(), rd, &mut r, &side, peek_owned).await;
+            if !linger.is_zero() {
+                tokio::time::sleep(linger).await;
+            }
+            let mut r = Some(r);
+            if side.half_drop == HalfDrop::ReadBeforeReply {
+                note_read_drop(&sh, rd);
+                drop(r.take());
+            }
+            let w = writer(sh.clone(), wd, w, side.clone()).await;
+            note_read_drop(&sh, rd);
+            if side.half_drop == HalfDrop::WriteThenRead {
+                drop(w);
+                drop(r);
+            } else {
+                drop(r);
+                drop(w);
+            }
+        }
+        Mode::TokioSplit => {
+            let (mut r, w) = tokio::io::split(stream);
+            reader_loop(sh.clone(), rd, &mut r, &side, |_r, _sz| None).await;
+            if !linger.is_zero() {
+                tokio::time::sleep(linger).await;
+            }
+            // without a shutdown the FIN goes out when the second half (= the stream) is dropped
+            let w = writer(sh.clone(), wd, w, side.clone()).await;
+            note_read_drop(&sh, rd);
+            if side.half_drop == HalfDrop::WriteThenRead {
+                drop(w);
+                drop(r);
+            } else {
+                drop(r);
+                drop(w);
+            }
+        }
+        Mode::WholeSeq => {
+            let mut s = stream;
+            reader_loop(sh.clone(), rd, &mut s, &side, peek_whole).await;
+            if !linger.is_zero() {
+                tokio::time::sleep(linger).await;
+            }
+            if whole_write(&sh, wd, &mut s, &side).await {
+                if side.close == Close::Shutdown {
+                    if let Err(e) = s.shutdown().await {
+                        sh.dirs[wd].borrow_mut().writer_error = Some(format!("shutdown {:?}", e.kind()));
+                    }
+                }
+                mark_closed(&sh, wd);
+            }
+            sh.dirs[wd].borrow_mut().writer_done = true;
+            note_read_drop(&sh, rd);
             drop(s);
         }
     }
@@ -583,7 +744,7 @@ pub fn run(sc: &Scenario) -> Outcome {
         let min_buf = plan.iter().map(|x| x.0 as u64).filter(|b| *b > 0).min().unwrap_or(64);
         let cycle_cost: u64 = plan.iter().map(|x| x.2 as u64 + 2).sum();
         let progress_reads = bytes.div_ceil(min_buf.max(1)) + w.chunks.len() as u64 + 3;
-        wp + r.reader_delay as u64 + progress_reads * cycle_cost
+        wp + r.reader_delay as u64 + r.linger_ms as u64 + w.linger_ms as u64 + progress_reads * cycle_cost
     };
     // the connections run one after the other: the budget is the sum of the per-connection budgets
     let last_fault = sc.faults.iter().map(|f| f.0 as u64).max().unwrap_or(0);
@@ -704,9 +865,19 @@ pub fn run(sc: &Scenario) -> Outcome {
     let mut any_bp = false;
     let mut fin_while_full = false;
     let mut cut_short = false;
+    let mut graceful_quit_with_reply = false;
+    let tol_late_fin = is_known("F-C02-2");
     for (k, (_, cside, sside)) in conns.iter().enumerate() {
         let sh = &shs[k];
-        let abortive = cside.reader_quits_after.is_some() || sside.reader_quits_after.is_some();
+        // A reader that stops before EOF makes the close abortive only if inbound data was (or
+        // could still become) unread at that endpoint.  If, when it stopped, the peer had already
+        // closed its write side and every byte the peer's writes accepted had been consumed, no
+        // inbound DATA is or ever will be unread there (an unread FIN is not data): the drop is
+        // graceful and the delivery half stays in force for what that endpoint writes.
+        let abortive = sh.dirs.iter().any(|d| {
+            let d = d.borrow();
+            d.reader_quit && !d.quit_graceful
+        });
         any_abortive |= abortive;
         if !*sh.connected.borrow() {
             // Never opened.  If every earlier connection had to terminate (delivery half) one of
@@ -716,6 +887,54 @@ pub fn run(sc: &Scenario) -> Outcome {
             continue;
         }
         let delivery_applies = !partitioned_ever && !abortive && !held;
+        // Classification of graceful quits: was the peer's FIN certainly delivered (queued,
+        // unread) when the read side was dropped, or may it still have been on the wire?
+        // Remote: a message is delivered at most lat_max + tick after it was sent (whole-ms
+        // ticks); same host: one tick.  Any hold/partition in the scenario voids the bound.
+        let mut late_fin = false;
+        for d in 0..2 {
+            let g = sh.dirs[d].borrow();
+            if !(g.reader_quit && g.quit_graceful) {
+                continue;
+            }
+            let rside = if d == 0 { sside } else { cside };
+            let bound = Duration::from_millis(if peer == PeerKind::Remote { lat_max + 2 * tick } else { 2 * tick });
+            let certain = sc.faults.is_empty()
+                && match (g.closed_at, g.read_dropped_at) {
+                    (Some(c), Some(r)) => r >= c + bound,
+                    _ => false,
+                };
+            out.label("graceful-quit (peer closed, all its bytes read, its EOF never read)");
+            out.label(if certain { "graceful-quit: peer FIN queued unread at the drop" } else { "graceful-quit: peer FIN possibly still in flight at the drop" });
+            if !certain {
+                late_fin = true;
+            }
+            let replied = sh.dirs[1 - d].borrow().accepted > 0;
+            if replied {
+                graceful_quit_with_reply = true;
+                out.label(if certain { "graceful-quit+reply: FIN queued unread" } else { "graceful-quit+reply: FIN possibly in flight" });
+            }
+            if rside.reply == Reply::AfterRead {
+                out.label(format!("graceful-quit by responder {:?}/{:?}", rside.mode, rside.half_drop));
+            } else {
+                out.label(format!("graceful-quit by concurrent {:?}", rside.mode));
+            }
+        }
+        // In a connection of the "FIN possibly in flight" class a reset (ConnectionReset at the
+        // reader, BrokenPipe at the writer) gets its own signature: it is finding F-C02-2 (the
+        // FIN that arrives after the drop is answered with RST) and is tolerated only while
+        // that finding is listed as "known"; every other clause keeps its signature.
+        let err_sig = |base: &str| -> String { if late_fin { LATE_FIN_SIG.to_string() } else { base.to_string() } };
+        if late_fin && tol_late_fin && !sc.strict && sh.dirs.iter().any(|d| d.borrow().reader_error.is_some() || d.borrow().writer_error.is_some()) {
+            out.exclude("F-C02-2");
+            for d in 0..2 {
+                let g = sh.dirs[d].borrow();
+                if g.would_block + g.write_pending > 0 {
+                    any_bp = true;
+                }
+            }
+            continue;
+        }
         for d in 0..2 {
             let g = sh.dirs[d].borrow();
             let wside = if d == 0 { cside } else { sside };
@@ -730,11 +949,11 @@ pub fn run(sc: &Scenario) -> Outcome {
             if delivery_applies && !all_zero_reads {
                 let total: usize = wside.chunks.iter().map(|c| *c as usize).sum();
                 if let Some(e) = &g.writer_error {
-                    out.fail("writer-error-on-healthy-link", format!("connection #{k} dir {d}: {e}"));
+                    out.fail(err_sig("writer-error-on-healthy-link"), format!("connection #{k} dir {d}: {e}"));
                     return out;
                 }
                 if let Some(e) = &g.reader_error {
-                    out.fail("reader-error-on-healthy-link", format!("connection #{k} dir {d}: {e} after {} of {} bytes", g.consumed, g.accepted));
+                    out.fail(err_sig("reader-error-on-healthy-link"), format!("connection #{k} dir {d}: {e} after {} of {} bytes", g.consumed, g.accepted));
                     return out;
                 }
                 if !g.writer_done {
@@ -749,7 +968,8 @@ pub fn run(sc: &Scenario) -> Outcome {
                     out.fail("bytes-never-delivered-on-healthy-link", format!("connection #{k} dir {d}: reader consumed {} of {} accepted bytes after {steps} steps (budget {budget})", g.consumed, g.accepted));
                     return out;
                 }
-                if !g.eof {
+                // a reader that quit gracefully chose not to read the EOF
+                if !g.eof && !g.reader_quit {
                     out.fail("eof-never-delivered-after-graceful-close", format!("connection #{k} dir {d}: all {} bytes read but no EOF after {steps} steps (budget {budget}); capacity {cap}, {} segments", g.consumed, g.segments));
                     return out;
                 }
@@ -785,6 +1005,17 @@ pub fn run(sc: &Scenario) -> Outcome {
     for (_, c, s) in &conns {
         out.label(format!("{:?}", c.mode));
         out.label(format!("{:?}", s.mode));
+        for (x, y) in [(c, s), (s, c)] {
+            if x.reply == Reply::AfterRead {
+                let req: u32 = y.chunks.iter().map(|c| *c as u32).sum();
+                out.label("request-response");
+                out.label(match x.reader_quits_after {
+                    Some(q) if q == req => "responder reads exactly the request",
+                    Some(q) if q < req => "responder reads less than the request (abortive)",
+                    _ => "responder reads to EOF first",
+                });
+            }
+        }
     }
     // ---------------- sequences of connections between the same two endpoints
     let opened = shs.iter().filter(|sh| *sh.connected.borrow()).count();
@@ -831,7 +1062,7 @@ pub fn run(sc: &Scenario) -> Outcome {
         out.label("manual-order");
     }
     out.count("bytes delivered", shs.iter().map(|sh| sh.dirs.iter().map(|d| d.borrow().consumed as u64).sum::<u64>()).sum());
-    out.nontrivial = reorder_possible || any_bp || fin_while_full || reconnect_outstanding || sc.manual_order.as_ref().map(|o| o.len() >= 2).unwrap_or(false);
+    out.nontrivial = reorder_possible || any_bp || fin_while_full || reconnect_outstanding || graceful_quit_with_reply || sc.manual_order.as_ref().map(|o| o.len() >= 2).unwrap_or(false);
     out
 }
 
@@ -852,9 +1083,89 @@ fn side_strategy() -> BoxedStrategy<Side> {
             if reads.iter().all(|r| r.0 == 0) {
                 reads.push((3, false, 0));
             }
-            Side { mode, chunks, write_pauses, close, reads, reader_quits_after, reader_delay }
+            Side { mode, chunks, write_pauses, close, reads, reader_quits_after, reader_delay, reply: Reply::Concurrent, half_drop: HalfDrop::ReadThenWrite, linger_ms: 0 }
         })
         .boxed()
+}
+
+/// How far a shaped reader reads.
+#[derive(Clone, Copy, Debug, PartialEq, Eq)]
+enum ReadsTo {
+    /// exactly the bytes the peer writes on this connection — never reads the EOF
+    Exact,
+    /// to EOF (control: the FIN is consumed before the drop)
+    Eof,
+    /// stops `n` bytes short (abortive: data unread at the drop)
+    Short(u16),
+}
+
+/// Half-close request/response shaping of one connection: one endpoint (the requester) writes its
+/// chunks, closes its write side and keeps reading; the other (the responder) reads first, then
+/// replies and drops.  `concurrent_exact` instead keeps both endpoints concurrent and only makes
+/// one reader stop at exactly the peer's byte count (read side dropped while its own writer may
+/// still be busy).
+#[derive(Clone, Debug)]
+struct Shaping {
+    responder_is_client: bool,
+    concurrent_exact: bool,
+    reads_to: ReadsTo,
+    linger_ms: u16,
+    half_drop: HalfDrop,
+    /// the requester / the replier are made to write at least one chunk
+    min_request: bool,
+    min_reply: bool,
+}
+
+fn shaping_strategy() -> BoxedStrategy<Option<Shaping>> {
+    let s = (
+        any::<bool>(),
+        prop_oneof![4 => Just(false), 1 => Just(true)],
+        prop_oneof![6 => Just(ReadsTo::Exact), 2 => Just(ReadsTo::Eof), 1 => (1u16..=3).prop_map(ReadsTo::Short)],
+        prop_oneof![2 => Just(0u16), 2 => 1u16..=12, 3 => 13u16..=90],
+        prop_oneof![Just(HalfDrop::ReadThenWrite), Just(HalfDrop::WriteThenRead), Just(HalfDrop::ReadBeforeReply)],
+        prop_oneof![5 => Just(true), 1 => Just(false)],
+        prop_oneof![5 => Just(true), 1 => Just(false)],
+    )
+        .prop_map(|(responder_is_client, concurrent_exact, reads_to, linger_ms, half_drop, min_request, min_reply)| Shaping {
+            responder_is_client,
+            concurrent_exact,
+            reads_to,
+            linger_ms,
+            half_drop,
+            min_request,
+            min_reply,
+        });
+    prop_oneof![3 => Just(None), 2 => s.prop_map(Some)].boxed()
+}
+
+fn apply_shaping(sh: &Shaping, client: &mut Side, server: &mut Side, seed: u64) {
+    let (resp, req) = if sh.responder_is_client { (client, server) } else { (server, client) };
+    if sh.min_request && req.chunks.is_empty() {
+        req.chunks.push(1 + (q_mix(seed, 40) % 7) as u16);
+    }
+    if sh.min_reply && resp.chunks.is_empty() {
+        resp.chunks.push(1 + (q_mix(seed, 41) % 7) as u16);
+    }
+    // the requester half-closes and keeps reading to EOF
+    req.reply = Reply::Concurrent;
+    req.reader_quits_after = None;
+    let total: u32 = req.chunks.iter().map(|c| *c as u32).sum();
+    resp.reader_quits_after = match sh.reads_to {
+        ReadsTo::Exact => Some(total),
+        ReadsTo::Eof => None,
+        ReadsTo::Short(n) => Some(total.saturating_sub(n as u32)),
+    };
+    if sh.concurrent_exact {
+        resp.reply = Reply::Concurrent;
+        // a whole-stream sequential endpoint writes before it reads: its peer must be able to
+        // take all of that while the responder is not reading yet — already guaranteed by
+        // no_double_wholeseq_deadlock
+    } else {
+        resp.reply = Reply::AfterRead;
+        resp.half_drop = sh.half_drop;
+        resp.linger_ms = sh.linger_ms;
+        resp.reader_delay = resp.reader_delay.min(20);
+    }
 }
 
 /// Knobs that turn the client side of a connection which is followed by another one into a
@@ -914,11 +1225,16 @@ pub fn strategy() -> BoxedStrategy<Scenario> {
             5 => Just(vec![]),
             5 => proptest::collection::vec((handover_strategy(), side_strategy(), side_strategy()), 1..=MAX_FOLLOWUPS),
         ],
+        // half-close request/response shaping, one draw per connection of the sequence
+        proptest::collection::vec(shaping_strategy(), 1 + MAX_FOLLOWUPS),
     )
-        .prop_map(|((tick_ms, (lat_min, lat_max), capacity, v6, seed), peer, listen_localhost, client, server, faults, seq)| {
+        .prop_map(|((tick_ms, (lat_min, lat_max), capacity, v6, seed), peer, listen_localhost, client, server, faults, seq, shapings)| {
             let mut sides: Vec<(Side, Side)> = vec![(client, server)];
             let mut gaps: Vec<u16> = vec![];
+            // connections the handover turned into short-lived ones keep that shape
+            let mut left_early: Vec<bool> = vec![];
             for (h, c, s) in seq {
+                left_early.push(h.early_quit.is_some());
                 // shape the connection being left according to the handover
                 let (pc, ps) = sides.last_mut().unwrap();
                 if let Some(q) = h.early_quit {
@@ -937,6 +1253,12 @@ pub fn strategy() -> BoxedStrategy<Scenario> {
             for (c, s) in sides.iter_mut() {
                 no_double_wholeseq_deadlock(c, s, capacity);
             }
+            // last, so that "exactly the request" is computed from the final chunk lists
+            for (k, ((c, s), shp)) in sides.iter_mut().zip(shapings.iter()).enumerate() {
+                if let (Some(shp), false) = (shp, left_early.get(k).copied().unwrap_or(false)) {
+                    apply_shaping(shp, c, s, seed);
+                }
+            }
             let mut it = sides.into_iter();
             let (client, server) = it.next().unwrap();
             let followups = it.zip(gaps).map(|((client, server), gap_ms)| Followup { gap_ms, client, server }).collect();
@@ -954,6 +1276,7 @@ pub fn strategy() -> BoxedStrategy<Scenario> {
                 faults,
                 manual_order: None,
                 followups,
+                strict: false,
             }
         })
         .boxed()
@@ -1009,6 +1332,9 @@ fn exhaustive_space(tier: Tier) -> Vec<Scenario> {
                                 reads: vec![(8, false, 0)],
                                 reader_quits_after: None,
                                 reader_delay: 0,
+                                reply: Reply::Concurrent,
+                                half_drop: HalfDrop::ReadThenWrite,
+                                linger_ms: 0,
                             },
                             server: Side {
                                 mode: Mode::IntoSplit,
@@ -1018,11 +1344,90 @@ fn exhaustive_space(tier: Tier) -> Vec<Scenario> {
                                 reads: bufs.clone(),
                                 reader_quits_after: None,
                                 reader_delay: delay,
+                                reply: Reply::Concurrent,
+                                half_drop: HalfDrop::ReadThenWrite,
+                                linger_ms: 0,
                             },
                             faults: vec![],
                             manual_order: Some(order),
                             followups: vec![],
+                            strict: false,
                         });
+                    }
+                }
+            }
+        }
+    }
+    out
+}
+
+/// Fixed family: half-close request/response.  The requester writes a 2-chunk request, closes its
+/// write side (shutdown or write-half drop) and reads to EOF; the responder reads exactly the
+/// request (or, control, to EOF), lingers (0 ms: the FIN may still be on the wire; long: the FIN
+/// is certainly queued unread), replies with 2 chunks and drops — every combination of
+/// requester mode x close, responder mode x half-drop order x close, which endpoint responds,
+/// peer kind and fixed/ranged latency.
+fn request_response_space() -> Vec<Scenario> {
+    let mut out = Vec::new();
+    let modes = [Mode::IntoSplit, Mode::TokioSplit, Mode::WholeSeq];
+    for req_mode in modes {
+        for req_close in [Close::Shutdown, Close::DropWriteHalf] {
+            for resp_mode in modes {
+                for half_drop in [HalfDrop::ReadThenWrite, HalfDrop::WriteThenRead, HalfDrop::ReadBeforeReply] {
+                    if resp_mode != Mode::IntoSplit && half_drop == HalfDrop::ReadBeforeReply {
+                        continue;
+                    }
+                    for resp_close in [Close::Shutdown, Close::DropWriteHalf] {
+                        for exact in [true, false] {
+                            for linger in [0u16, 3, 60] {
+                                for responder_is_client in [false, true] {
+                                    for (peer, lat) in [(PeerKind::Remote, (1u32, 1u32)), (PeerKind::Remote, (1, 9)), (PeerKind::SameHostOwnAddr, (1, 1)), (PeerKind::Loopback, (1, 1))] {
+                                        let n = out.len();
+                                        let request = Side {
+                                            mode: req_mode,
+                                            chunks: vec![3, 1],
+                                            write_pauses: vec![],
+                                            close: req_close,
+                                            reads: vec![(if n % 2 == 0 { 16 } else { 1 }, n % 3 == 0, 0)],
+                                            reader_quits_after: None,
+                                            reader_delay: 0,
+                                            reply: Reply::Concurrent,
+                                            half_drop: HalfDrop::ReadThenWrite,
+                                            linger_ms: 0,
+                                        };
+                                        let response = Side {
+                                            mode: resp_mode,
+                                            chunks: vec![2, 3],
+                                            write_pauses: vec![],
+                                            close: resp_close,
+                                            reads: vec![(if n % 5 < 2 { 4 } else { 3 }, n % 7 == 0, 0)],
+                                            reader_quits_after: if exact { Some(4) } else { None },
+                                            reader_delay: 0,
+                                            reply: Reply::AfterRead,
+                                            half_drop,
+                                            linger_ms: linger,
+                                        };
+                                        let (client, server) = if responder_is_client { (response, request) } else { (request, response) };
+                                        out.push(Scenario {
+                                            tick_ms: 1,
+                                            lat_min: lat.0,
+                                            lat_max: lat.1,
+                                            capacity: if n % 4 == 0 { 1 } else { 2 },
+                                            v6: n % 8 == 3,
+                                            seed: n as u64,
+                                            peer,
+                                            listen_localhost: false,
+                                            client,
+                                            server,
+                                            faults: vec![],
+                                            manual_order: None,
+                                            followups: vec![],
+                                            strict: false,
+                                        });
+                                    }
+                                }
+                            }
+                        }
                     }
                 }
             }
@@ -1065,12 +1470,34 @@ pub fn fuzz_sanitize(sc: &mut Scenario) -> bool {
         }
         s.reader_quits_after = s.reader_quits_after.map(|q| q % 40);
         s.reader_delay %= 61;
+        s.linger_ms %= 91;
     }
     for pair in sides.chunks_mut(2) {
         if let [c, s] = pair {
             no_double_wholeseq_deadlock(c, s, capacity);
+            // two endpoints that both read before they write would wait for each other
+            if c.reply == Reply::AfterRead && s.reply == Reply::AfterRead {
+                s.reply = Reply::Concurrent;
+            }
+            // a replying endpoint stops at exactly the peer's byte count when the decoded quit
+            // count is odd (the structural decoder cannot hit the exact value by chance), and
+            // its peer keeps reading to EOF
+            fn fix(x: &mut Side, y: &mut Side) {
+                if x.reply == Reply::AfterRead {
+                    let total: u32 = y.chunks.iter().map(|c| *c as u32).sum();
+                    if let Some(q) = x.reader_quits_after {
+                        if q % 2 == 1 {
+                            x.reader_quits_after = Some(total);
+                        }
+                    }
+                    y.reader_quits_after = None;
+                }
+            }
+            fix(c, s);
+            fix(s, c);
         }
     }
+    sc.strict = false;
     // faults: keep at most one hold->release or partition->repair pair
     let first = sc.faults.first().cloned();
     sc.faults = match first {
@@ -1091,11 +1518,20 @@ fn check(tier: Tier, seed: u64) -> i32 {
         tier.pick(3, 5)
     );
     ctx.exhaustive("delivery-orders", &desc, Box::new(space.into_iter()), &run);
+    let rr = request_response_space();
+    let rr_desc = format!(
+        "{} scenarios: half-close request/response — requester (3 endpoint modes x shutdown/write-half drop) writes 2 chunks, closes its write side and reads to EOF; responder (3 endpoint modes x half-drop order incl. read half dropped before the reply x shutdown/drop) reads exactly the request without reading the EOF (or, control, to EOF), lingers 0/3/60 ms, replies with 2 chunks and drops; either endpoint as responder; remote fixed and ranged latency, same-host, 127.0.0.1",
+        rr.len()
+    );
+    ctx.exhaustive("half-close-request-response", &rr_desc, Box::new(rr.into_iter()), &run);
     ctx.random("random", tier.pick(12_000, 160_000), &|| strategy(), &run);
     ctx.finish(
-        "bounded-exhaustive delivery orders of k data segments + FIN (see exhaustive_subspaces) plus random sequences of 1-4 connections between the same two endpoints (half of the cases a single connection; otherwise the same client task opens the next connection to the same listener 0-45 ms, mostly 0 ms, after its endpoint of the previous one returned: after reading to EOF, or after dropping the stream right after connect / after a few bytes while the server is still writing, i.e. graceful and abortive early closes with segments of the old connection still in flight; every connection has its own byte pattern and is checked against the bytes written on THAT connection; the server handles the connections concurrently): tick, ranged or fixed latency, tcp_capacity 1-4 or 64, v4/v6, remote / same-host / 127.0.0.1 peers, both directions concurrently with generated write chunkings (many 1-byte), write pauses, reader buffer sizes including 0 and 1 with interleaved peeks, slow and late readers, three endpoint modes (into_split, tokio::io::split, whole stream with try_write+writable), shutdown or write-half drop, early reader quit (abortive), hold/release and partition/repair mid-stream. Oracle: byte-FIFO model — every read/peek returns the next bytes of the peer's accepted stream and never more than accepted so far; EOF only after the writer closed and all bytes were consumed; on a healthy link with a graceful close every accepted byte and EOF arrive within a configuration-derived step budget. Non-trivial = segments can overtake each other (remote, max > min + tick, >= 2 segments) or a write blocked / returned WouldBlock or FIN met a full receive queue, or a connection was opened while the previous one between the same endpoints still had accepted-but-unconsumed bytes, or a manual delivery order of >= 2 messages. Distinct by scenario hash.",
+        "bounded-exhaustive delivery orders of k data segments + FIN (see exhaustive_subspaces) plus random sequences of 1-4 connections between the same two endpoints (half of the cases a single connection; otherwise the same client task opens the next connection to the same listener 0-45 ms, mostly 0 ms, after its endpoint of the previous one returned: after reading to EOF, or after dropping the stream right after connect / after a few bytes while the server is still writing, i.e. graceful and abortive early closes with segments of the old connection still in flight; every connection has its own byte pattern and is checked against the bytes written on THAT connection; the server handles the connections concurrently): tick, ranged or fixed latency, tcp_capacity 1-4 or 64, v4/v6, remote / same-host / 127.0.0.1 peers, both directions concurrently with generated write chunkings (many 1-byte), write pauses, reader buffer sizes including 0 and 1 with interleaved peeks, slow and late readers, three endpoint modes (into_split, tokio::io::split, whole stream with try_write+writable), shutdown or write-half drop, early reader quit, hold/release and partition/repair mid-stream; about 40% of the connections are shaped as half-close request/response (also the fixed family half-close-request-response): one endpoint writes its request, closes its write side and keeps reading to EOF, the other reads first — exactly the request bytes without ever reading the EOF (most), to EOF (control) or 1-3 bytes short (abortive) — lingers 0-90 ms (so the peer's FIN is either still on the wire or queued unread), then writes its reply and drops the whole stream / both tokio halves / both owned halves in either order / the owned read half BEFORE the reply; a fifth of the shaped connections instead keep both endpoints concurrent and only stop one reader at exactly the peer's byte count. A reader that stops before EOF makes the connection abortive only if, when it stopped, the peer had not yet closed its write side or accepted bytes were unconsumed; otherwise (nothing unread, nothing but the FIN can still arrive) the drop is graceful and the delivery half stays in force: the peer must read every reply byte and then EOF, no ConnectionReset/BrokenPipe. Oracle: byte-FIFO model — every read/peek returns the next bytes of the peer's accepted stream and never more than accepted so far; EOF only after the writer closed and all bytes were consumed; on a healthy link with a graceful close every accepted byte and EOF arrive within a configuration-derived step budget. Non-trivial = segments can overtake each other (remote, max > min + tick, >= 2 segments) or a write blocked / returned WouldBlock or FIN met a full receive queue, or a connection was opened while the previous one between the same endpoints still had accepted-but-unconsumed bytes, or a manual delivery order of >= 2 messages, or an endpoint dropped its read side gracefully without reading the peer's EOF and wrote at least one byte. Distinct by scenario hash.",
         &[
             "under partitions or an abortive close only the prefix (safety) half is asserted (per connection: an early quit on one connection does not relax the delivery half of the following ones)",
+            "an early quit is abortive (decided when the reader stops, from the harness's own byte counts) unless the peer's writer had already closed and every accepted byte had been consumed; an unread FIN is not unread data (property text: 'a drop while no inbound data is unread'; RFC 9293 3.10.4; comment in ReadHalf::drop)",
+            "graceful quits are classed by simulated time: the peer's FIN was certainly delivered if the read side was dropped >= lat_max + 2 ticks (same host: 2 ticks) after the peer closed and the scenario has no hold/partition; otherwise it may still have been in flight. In the in-flight class a ConnectionReset/BrokenPipe has its own signature (finding F-C02-2) and is tolerated only while known_findings.json lists F-C02-2 as known (counted under excluded); Scenario.strict asserts it regardless",
+            "at most one endpoint of a connection reads before it writes (two would wait for each other)",
             "connections of a sequence are opened strictly one after the other by one client task, so the k-th accept is the k-th connect; a connection that is never opened because an earlier abortive one (no liveness promised) still occupies the client is skipped (label sequence-cut-short)",
             "the default ephemeral port range is used, so on the unchanged tree no two connections of a sequence share a SocketPair",
             "a zero-length read returning Ok(0) is not treated as EOF",
